@@ -18,7 +18,7 @@ and `0` on a read-only server.
 | space reserved for an upload is released when the upload completes | `released_on_close_or_abort` (close) |
 | … or is aborted (abort, disconnect, timeout) | `released_on_close_or_abort` (abort, timeout sweep), `abort_always_releases` (with the directory cleanup of abort, siblings present or not — seeded C28-c), `lost_connection_releases_space` (Foolscap disconnect, reachable states — seeded C22-b) |
 | quantifier: histories × configurations (capacity, reserved_space, read-only) | theorems are per step for every state/configuration; reachable-state ones by induction over front-end histories |
-| `get_available_space()` = max(free − reserved, 0) computed by fileutil / statvfs | model definition `availableSpace`; correspondence only (real `get_disk_stats` runs on a patched `os.statvfs`) |
+| available space is computed from the statvfs record as `f_bavail × f_frsize` (not `f_bsize`), minus reserved_space, floored at 0 | model `freeBytes` / `diskAvail`; `never_overcommits_statvfs` (admitted total ≤ f_bavail·f_frsize − reserved_space for every statvfs record — seeded C28-e); tied by correspondence on geometries with f_bsize ≠ f_frsize (real `get_disk_stats` runs on a patched `os.statvfs`) |
 | platform without statvfs (`None` = unlimited) | not covered (not modelled) |
 -/
 namespace Tahoe.C28
@@ -158,6 +158,37 @@ theorem readonly_accepts_none (s : Server) (hro : s.readonly = true) (si : Nat) 
 
 example : (allocate (Server.empty true 0) 0 [0, 1] 0 exRec 1000 []).2.toOption.map (·.writers) = some [] := by
   decide
+
+/-- **never_overcommits_statvfs**: for every `os.statvfs` record (whatever `f_bsize` says), whenever
+    `allocate_buckets` accepts a share, the reservations in progress afterwards do not exceed the bytes
+    really free for the server, `f_bavail × f_frsize`, minus `reserved_space` (floored at 0), and on a
+    read-only server nothing is accepted. -/
+theorem never_overcommits_statvfs (s : Server) (st : StatVfs) (si : Nat) (shs : List Nat) (size : Nat)
+    (rec : Bytes) (order : List Nat) (o : AllocOut)
+    (h : (allocate s si shs size rec (freeBytes st) order).2 = .ok o) (hne : o.writers ≠ []) :
+    allocatedSize (allocate s si shs size rec (freeBytes st) order).1 ≤ st.bavail * st.frsize - s.reserved ∧
+    allocatedSize (allocate s si shs size rec (freeBytes st) order).1 ≤ diskAvail st s.reserved ∧
+    s.readonly = false := by
+  have e := never_overcommits s si shs size rec (freeBytes st) order o h
+  have h1 := e.2.1 hne
+  have hro : s.readonly = false := by
+    cases hr : s.readonly with
+    | false => rfl
+    | true => exact absurd ((readonly_accepts_none s hr si shs size rec (freeBytes st) order).2 o h) hne
+  rw [e.2.2, hro] at h1
+  simp only [Bool.false_eq_true, if_false] at h1
+  refine ⟨?_, h1, hro⟩
+  simp only [freeBytes] at h1
+  rw [Nat.mul_comm]; exact h1
+
+/-- 4 KiB fragments, 1 MiB preferred I/O size, 3 fragments available, 1000 bytes reserved: of three
+    5000-byte shares two fit into 3·4096 − 1000 = 11288 bytes (with `f_bsize` as the unit all would) -/
+example :
+    let st : StatVfs := { frsize := 4096, bsize := 1048576, blocks := 100, bfree := 3, bavail := 3 }
+    let r := allocate (Server.empty false 1000) 0 [0, 1, 2] 5000 exRec (freeBytes st) []
+    diskAvail st 1000 = 11288 ∧ r.2.toOption.map (·.writers) = some [(0, 0), (1, 1)] ∧
+    allocatedSize r.1 = 10000 := by
+  refine ⟨by decide, ?_, ?_⟩ <;> rfl
 
 /-- the code as it is in the unrepaired tree (`allocLoopUnfixed`: no read-only test of its own, only
     `remaining_space >= allocated_size` with `remaining_space = 0`) accepts zero-size shares on a
